@@ -71,14 +71,16 @@ class C18(PropBase):
                 "sp / ip register name for every register file (whatever cpsr / eflags / context_flags hold) and to follow writes through "
                 "every alias; the MinidumpContext dispatch arms of get_register_always / get_register / valid_registers are translated and "
                 "proved to forward to the variant's own methods unchanged; validity is honoured through aliases; registers()/"
-                "valid_registers() list exactly REGISTERS / its valid subset, also as iterators (CpuRegisters::next); format_register renders "
-                "digits that denote the value. Proof by a diagnostic checker evaluated on the generated tables and lifted by generic lemmas. "
+                "valid_registers() list exactly REGISTERS / its valid subset, also as iterators (CpuRegisters::next); format_register (format "
+                "string translated) renders digits that denote the value; every get_register_always arm, the value every set_register arm "
+                "assigns, the branches of register_is_valid and the condition of get_register are translated as expressions and required "
+                "by the checker to be the plain read / val / the plain calls. Proof by a diagnostic checker evaluated on the generated tables and lifted by generic lemmas. "
                 "The translator is validated by running the live methods on every (type, name, validity class, value, flag/fill pattern) "
                 "case against the extracted model; an independent oracle judges the implementation's answers (incl. each dedicated accessor "
                 "against the by-name read).",
         "note": "Trusted: Coq kernel; the translator (correspondence-checked); hand-written semantics of tables/expressions; extraction + glue. "
-                "The trait's default bodies (register_is_valid, get_register, format_register, registers, valid_registers, CpuRegisters::next) "
-                "are modelled by hand and pinned textually by the translator. Validity sets are assumed to hold only names the context knows "
+                "The shapes around the translated sub-expressions and the bodies of memoize_register (default), registers, valid_registers and "
+                "CpuRegisters::next are modelled by hand and pinned textually by the translator. Validity sets are assumed to hold only names the context knows "
                 "(a set holding an unknown name makes get_register panic: known finding F-C18b, see design/C18.md). No axioms.",
     }
     assumptions = ["theorems: MinidumpContextValidity::Some(S) holds only names memoize_register accepts; the complement is the recorded "
@@ -218,6 +220,8 @@ class C18(PropBase):
             #      ip registers (the dedicated accessors are compared with the by-name reads on each), and sampled for the rest
             M32 = 0xffffffff
             fills = [0, M32] + [1 << b for b in range(32)] + [0x55555555, 0xaaaaaaaa, 0x21, 0x20000001, M32 ^ 0x20, M32 ^ 1]
+            # the type's own CPU bit of context_flags together with low flag bits (a test on two fields at once)
+            fills += [(own | x) & M32 for x in (0x21, 0x3f, 0xffff)]
             if tier != "quick":
                 fills += [M32 ^ (1 << b) for b in range(32)] + [rng.below(1 << 32) for _ in range(48)]
             fills = list(dict.fromkeys(fills))
